@@ -244,8 +244,8 @@ static RunSpec derive_spec(const std::string& world, int variant, uint64_t run_s
     g.min_calls = 1;
     g.max_calls = 6;
     g.max_log2n = 6;
-    g.big_n_pct = thorough ? 3 : 1;
-    g.max_big_log2n = thorough ? 13 : 14;
+    g.big_n_pct = thorough ? 4 : 2;
+    g.max_big_log2n = 14;
     s.warm = rc.chance(1, 2);
     uint64_t pk = rc.below(100);
     if (pk < 55) {
